@@ -7,23 +7,35 @@ Local Open Scope N_scope.
 Lemma C05_gen_empty_path_guarded : tile_path_variant = 1.  Proof. reflexivity. Qed.
 
 (* every request path gets a status (a complete response), which is 200, 400 or 404 *)
-Theorem C05_status_total : forall has path,
-  exists s, status tile_path_variant has path = Some s /\ (s = 200 \/ s = 400 \/ s = 404).
+Theorem C05_status_total : forall numeric has path,
+  exists s, status tile_path_variant numeric has path = Some s /\ (s = 200 \/ s = 400 \/ s = 404).
 Proof. exact status_total. Qed.
 Print Assumptions C05_status_total.
 
 (* 200 exactly when the path parses to a coordinate at which the source holds a tile *)
-Theorem C05_status_200_iff : forall has path,
-  status tile_path_variant has path = Some 200 <->
-  (parse_tile_path tile_path_variant path = PMeta
-   \/ exists z x y, parse_tile_path tile_path_variant path = PCoord z x y /\ has z x y = true).
+Theorem C05_status_200_iff : forall numeric has path,
+  status tile_path_variant numeric has path = Some 200 <->
+  (parse_tile_path tile_path_variant numeric path = PMeta
+   \/ exists z x y, parse_tile_path tile_path_variant numeric path = PCoord z x y /\ has z x y = true).
 Proof. exact status_200_iff. Qed.
 Print Assumptions C05_status_200_iff.
 
-Theorem C05_parsed_coordinate_valid : forall v path z x y,
-  parse_tile_path v path = PCoord z x y -> z <= 31 /\ x <= 4294967295 /\ y <= 4294967295.
+Theorem C05_parsed_coordinate_valid : forall v numeric path z x y,
+  parse_tile_path v numeric path = PCoord z x y -> z <= 31 /\ x <= 4294967295 /\ y <= 4294967295.
 Proof. exact parsed_coord_in_range. Qed.
 Print Assumptions C05_parsed_coordinate_valid.
+
+(* a y part whose leading `is_numeric` run holds a character outside 0-9 (a non-ASCII digit) is a
+   bad request: a complete 400, never a coordinate and never a dropped connection *)
+Theorem C05_non_ascii_digit_bad_request : forall v numeric path p0 p1 p2 rest c,
+  as_vec path = p0 :: p1 :: p2 :: rest ->
+  In c (take_digits numeric p2) -> is_digit c = false -> c <> 43 ->
+  parse_tile_path v numeric path = PBad.
+Proof. exact y_non_ascii_numeric_is_bad_request. Qed.
+Print Assumptions C05_non_ascii_digit_bad_request.
+Example C05_non_ascii_digit_example :
+  status tile_path_variant (fun c => is_digit c || (c =? 1635)) (fun _ _ _ => true) [49;47;48;47;49;1635;46;112;98;102] = Some 400.
+Proof. reflexivity. Qed.
 
 (* body and Content-Encoding: whatever optimize_compression answers is allowed by the client and
    decodes to what the stored tile decodes to (any lawful codecs, any payload, fast/best/image) *)
@@ -57,5 +69,5 @@ Theorem C05_accept_encoding_subsets :
 Proof. exact accept_encoding_subsets_exact. Qed.
 Print Assumptions C05_accept_encoding_subsets.
 
-Theorem C05_empty_path_dropped_before_fix : forall has, status 0 has [47] = None.
+Theorem C05_empty_path_dropped_before_fix : forall numeric has, status 0 numeric has [47] = None.
 Proof. exact empty_path_panics_v0. Qed.
